@@ -544,6 +544,8 @@ class Lowerer:
         # std::swap(a, b) that no unit rule (pre_subst / subst / calls) has claimed: a plain exchange of two lvalues of the same (word-modelled) type
         s, nsw = re.subn(r'\bstd::swap\s*\(', 'XV_STD_SWAP(', s)
         if nsw: self.fire('std_swap_builtin', nsw)
+        s, nmc = re.subn(r'\b(?:std::)?memcmp\s*\(', 'XV_MEMCMP(', s)
+        if nmc: self.fire('memcmp_builtin', nmc)
         s = self.throws(s)
         s = self.decl_in_if(s)
         s = self.references(s)
